@@ -32,9 +32,9 @@ var zonesProducible = []*time.Location{
 
 var zonesArbitrary = []*time.Location{
 	time.FixedZone("LMT", -(4*3600 + 56*60 + 2)), // historical LMT west of Greenwich: negative offset with seconds
-	time.FixedZone("", -60),  // Time.MarshalBinary refuses: offset minute -1 is the UTC marker
-	time.FixedZone("", -61),  // refused as well
-	time.FixedZone("", -119), // refused
+	time.FixedZone("", -60),                      // Time.MarshalBinary refuses: offset minute -1 is the UTC marker
+	time.FixedZone("", -61),                      // refused as well
+	time.FixedZone("", -119),                     // refused
 	time.FixedZone("", -59),
 	time.FixedZone("", 1),
 	time.FixedZone("", 23*3600+59*60+59),
